@@ -18,6 +18,13 @@ def processLine (line : String) : String :=
       let before := sortMsgs ((arr j "before").map msgOfJson)
       let after := sortMsgs ((arr j "after").map msgOfJson)
       let items := arr j "items"
+      if bool j "lostAnswer" then
+        -- the Admin API carried the request out but its answer was lost on the way to the MCP tool: whatever the tool then
+        -- reports, the items are in the queue once each, or not at all
+        let stored := items.filter (fun it => after.any (fun m => m.id == str it "id"))
+        if (stored.isEmpty || stored.length == items.length) && after.length == before.length + stored.length && before.all (fun b => after.contains b) then "ok"
+        else s!"PROP C15,C02 publish-with-a-lost-answer-left-a-partial-or-repeated-effect {tag}"
+      else
       if str (obj j "resp") "t" != "count" then
         (if after == before then "ok" else s!"PROP C15,C02 refused-publish-changed-the-queue {tag}")
       else if nat (obj j "resp") "changed" != items.length then s!"PROP C15 publish-answered-with-another-count-than-items {tag}"
@@ -45,6 +52,19 @@ def processLine (line : String) : String :=
     match opOfJson (obj j "op") with
     | none => s!"BADLINE unknown op {tag}"
     | some op =>
+      if bool j "lostAnswer" then
+        -- the Admin API carried the operation out but its answer was lost on the way to the MCP tool: whatever the tool then
+        -- does and reports, the queue shows the operation applied at most ONCE (a silent retry of a mutating call applies a
+        -- `limit`-ed selection twice)
+        let changedN := (before.filter (fun m => find after m.id != some m)).length
+        let after' := after.map fun m' => match find before m'.id with
+          | some m => if m.st != m'.st then { m' with next := 0 } else m'
+          | none => m'
+        let preview := match op with | .byFilter _ f => f.preview | _ => false
+        let r : Rec := { cfg := {}, now := 0, before := before, op := op, resp := .count (if preview then 0 else changedN) changedN preview, after := after' }
+        if after == before || C14.stepOK r then "ok"
+        else s!"PROP C14 operation-applied-more-than-once-after-a-lost-answer changed={changedN} {tag}"
+      else
       if str (obj j "resp") "t" != "count" then
         -- refused (or failed): nothing may have changed
         if after == before then
